@@ -11,6 +11,7 @@ import LhasaV.Lemmas.PrintList
 import LhasaV.Lemmas.ExtractTreeOw
 import LhasaV.Lemmas.ExtractTreeImp
 import LhasaV.Lemmas.ArchiveOs
+import LhasaV.Lemmas.ExtractTreeAll
 /-!
 # C06 — extraction reproduces the archived tree: contents, names, times, modes, links
 -/
@@ -467,5 +468,47 @@ theorem extract_level0_unix (m : Method) (hm : m ≠ .pm1 ∧ m ≠ .pm2) (es : 
 theorem dos_time_roundtrip (t : Nat) (h1 : 315532800 ≤ t) (h2 : t < 4294967296) (h3 : t % 2 = 0) :
     Header.dosTimeUTC (ArchiveOs.unixToDos t) = t :=
   ArchiveOs.dosTime_inverse t h1 h2 h3
+
+/-! ## one theorem for the combinations
+
+`WFU sel`: the mixed discipline `WFI` for the SELECTED entries (an unselected entry only closes the
+directories it lies outside of); `BaseU fs ds k`: the place of the tree — cwd, or `cwd/DIR` for
+`w=DIR` = `ds` — may hold top-level regular files if it exists; `PreAtU`: the place of each selected
+entry is free, or it is a top-level file member with a regular file in its place; `Asked`: some
+selected file member's place is taken (only then are answers read). `uniPlan` = the independent
+overwrite specification `plan` applied to the kept selected entries; `uniTree` = implicit-parent
+tree of what the plan writes, else what was there. -/
+
+open ExtractTree ExtractTree.Sample ArchiveOf Contain in
+/-- **Wildcards ∘ `w=DIR` ∘ implicit parents ∘ late directory entries ∘ overwrite policy, at once.**
+On bytes, for every encodable entry list: the run aborts exactly when the policy specification does;
+below the base every path holds the archived object if the plan writes it, a 0755-umask/now
+directory if it is a missing parent of something written, and otherwise EXACTLY what was there;
+DIR's missing components are made as `MadeFrom` says; nothing else changes; with nothing selected
+the file system is untouched. The earlier tree theorems are instances (re-derived with their
+original statements in Lemmas/ExtractTreeAll10). Option `i` stays with `extract_flattened`. -/
+theorem extract_unified (es : List Entry) (o : Opts) (fs : Fs.St)
+    (answers : Bytes) (ds : List Bytes) (k : Nat)
+    (hwf : WFU (selected o.filters) [] [] es) (henc : Encodable es)
+    (ho : OptsRel o ds) (hb : BaseU fs ds k) (ha : AccessW fs)
+    (hpre : ∀ e ∈ es, selected o.filters e = true → PreAtU fs ds e)
+    (hdepth : ∀ e ∈ es, ds.length + e.path.length < 64)
+    (hans : Asked fs ds (selected o.filters) es → o.overwrite = .prompt → OwAnswers answers) :
+    UniOutcome (run (archiveOf es) o fs answers) fs ds (uniPlan fs ds o answers es) ∧
+    MadeFrom fs (mkBase fs ds) (ds.take k) (ds.drop k) :=
+  ArchiveOf.extract_archiveOf_unified es o fs answers ds k hwf henc ho hb ha hpre hdepth hans
+
+open ExtractTree ExtractTree.Sample ArchiveOf Contain in
+/-- **Wildcards on a directory-first archive, ANY pattern list** (no closure condition any more):
+the tree of the selected entries, with 0755-umask/now directories for parents whose own entry was
+not selected. -/
+theorem extract_selected_any (es : List Entry) (o : Opts) (fs : Fs.St) (answers : Bytes)
+    (hwf : WellFormed es) (henc : Encodable es)
+    (hx : o.extractPath = none) (hu : o.usePath = true) (hfs : EmptyDir fs) (ha : Access fs) :
+    (run (archiveOf es) o fs answers).result = true ∧
+    (∀ p, p ≠ [] → Fs.lookup (run (archiveOf es) o fs answers).fs (fs.cwd ++ p) =
+      impTreeOf fs.now fs.umask (es.filter (selected o.filters)) p) ∧
+    (∀ x, ¬ fs.cwd <+: x → Fs.lookup (run (archiveOf es) o fs answers).fs x = Fs.lookup fs x) :=
+  ArchiveOf.extract_archiveOf_selected_any es o fs answers hwf henc hx hu hfs ha
 
 end LhasaV.Props.C06
